@@ -177,7 +177,8 @@ class IOApp(RecordingMixin, ApplicationIOController):
 
         def done(iocb):
             self.log("iocb-callback", token=token, state=iocb.ioState, ok=iocb.ioResponse is not None,
-                     outcome=outcome_kind(iocb.ioResponse if iocb.ioResponse is not None else iocb.ioError))
+                     outcome=outcome_kind(iocb.ioResponse if iocb.ioResponse is not None else iocb.ioError),
+                     answer_token=getattr(iocb.ioResponse, "serviceNumber", None))
         iocb.add_callback(done)
         self.request_io(iocb)
         return iocb
